@@ -4,20 +4,27 @@
 (* {"e":"Eval","mode":..,"pre":[[word..]..],"argv":[word..],"out":"ok"|"err",..,"dest":[..],"tag":{..}} *)
 (* Eval is accepted iff the logged outcome class and (on success) every destination value *)
 (* equal what the specification computes for the same configuration and words.            *)
-EXTENDS ArgEval, Json, IOUtils
+EXTENDS ArgKey, Json, IOUtils
 VARIABLES l, cfg
 Log == ndJsonDeserialize(IOEnv.TRACE)
 Ev == Log[l]
 TInit == l = 1 /\ cfg = [args |-> <<>>]
 DestEq(r) == \A a \in 1..NArgs(cfg) : r.dest[a] = Ev.dest[a]
+\* "lenient" configurations (C05): refused definitions are skipped by the driver, the handler holds the rest
+Lenient == "lenient" \in DOMAIN cfg /\ cfg.lenient
+EffCfg == IF ~Lenient THEN cfg
+          ELSE [cfg EXCEPT !.args = [k \in 1..Len(cfg.args) |->
+                   IF DefineRes(cfg)[k] = "refused" THEN [cfg.args[k] EXCEPT !.s = 0, !.l = <<>>, !.pos = FALSE, !.mand = FALSE]
+                   ELSE cfg.args[k]]]
 EvalMatches ==
-   LET r == Eval(cfg, Ev.pre, Ev.argv) IN
+   LET r == Eval(EffCfg, Ev.pre, Ev.argv) IN
    \/ Outcome(r) = "undef" /\ Ev.out \in {"ok", "err"}
    \/ Outcome(r) = "err" /\ Ev.out = "err"
    \/ Outcome(r) = "ok" /\ Ev.out = "ok" /\ Len(Ev.dest) = NArgs(cfg) /\ DestEq(r)
 TNext == /\ l <= Len(Log) /\ l' = l + 1
          /\ \/ Ev.e = "Reset" /\ cfg' = Ev.cfg
             \/ Ev.e = "Eval" /\ EvalMatches /\ UNCHANGED cfg
+            \/ Ev.e = "Define" /\ Ev.res = DefineRes(cfg) /\ UNCHANGED cfg
 TSpec == TInit /\ [][TNext]_<<l, cfg>>
 Accepted == TLCGet("stats").diameter = Len(Log) + 1
 =============================================================================
